@@ -293,6 +293,31 @@ func (st *State) external(caller *frame, fn *ssa.Function, args []Value) Value {
 			parts = append(parts, st.concStr(e, name))
 		}
 		return strings.Join(parts, st.concStr(args[1], name))
+	case "strings.ToLower":
+		return strings.ToLower(st.concStr(args[0], name))
+	case "strings.ToUpper":
+		return strings.ToUpper(st.concStr(args[0], name))
+	case "strings.EqualFold":
+		return BoolT(strings.EqualFold(st.concStr(args[0], name), st.concStr(args[1], name)))
+	case "strings.Compare":
+		return ConstInt(64, int64(strings.Compare(st.concStr(args[0], name), st.concStr(args[1], name))))
+	case "strings.Index":
+		return ConstInt(64, int64(strings.Index(st.concStr(args[0], name), st.concStr(args[1], name))))
+	case "strings.TrimLeft":
+		return strings.TrimLeft(st.concStr(args[0], name), st.concStr(args[1], name))
+	case "strings.TrimPrefix":
+		return strings.TrimPrefix(st.concStr(args[0], name), st.concStr(args[1], name))
+	case "strings.TrimSuffix":
+		return strings.TrimSuffix(st.concStr(args[0], name), st.concStr(args[1], name))
+	case "strings.Split":
+		parts := strings.Split(st.concStr(args[0], name), st.concStr(args[1], name))
+		out := make(Slice, len(parts))
+		for i, p := range parts {
+			out[i] = p
+		}
+		return out
+	case "strings.Repeat":
+		return strings.Repeat(st.concStr(args[0], name), st.ConcInt(args[1].(*Term)))
 	case "strings.TrimSpace":
 		return strings.TrimSpace(st.concStr(args[0], name))
 	case "strconv.Itoa":
@@ -547,6 +572,17 @@ func (st *State) intrinsic(caller *frame, fn *ssa.Function, args []Value) (Value
 			return "", true
 		}
 		return st.faultsHit[len(st.faultsHit)-1], true
+	case "verifFootprintStart":
+		st.trackFootprint = true
+		st.footprint = map[string]bool{}
+		return nil, true
+	case "verifFootprint":
+		st.trackFootprint = false
+		out := Slice{}
+		for _, k := range sortedKeys(st.footprint) {
+			out = append(out, k)
+		}
+		return out, true
 	case "verifIsReplay":
 		return False, true
 	case "verifNote":
